@@ -30,12 +30,12 @@ func (i JsByte) MarshalJSON() ([]byte, error) {
 // UnmarshalJSON
 // unmarshal json
 func (i *JsByte) UnmarshalJSON(b []byte) error {
-	lb := len(b)
-	if lb < 2 {
+	if len(b) == 0 {
 		return ErrInvalidByteJs
 	}
 
-	strBuf := string(b[1 : lb-1])
+	// an empty string token is the empty list
+	strBuf, _ := jsText(b)
 	return i.FromString(strBuf)
 }
 
